@@ -512,6 +512,15 @@ def _scalarise_list_local(fd, log=None):
                    if isinstance(a_, ast.Starred) and isinstance(a_.value, ast.Name) and a_.value.id == L}
         indexed = {id(n.value): n.slice.value for n in nodes if isinstance(n, ast.Subscript) and isinstance(n.value, ast.Name) and n.value.id == L and
                    isinstance(n.ctx, ast.Load) and isinstance(n.slice, ast.Constant) and isinstance(n.slice.value, int) and not isinstance(n.slice.value, bool)}
+        def _cs(b_):
+            return b_ is None or (isinstance(b_, ast.Constant) and isinstance(b_.value, int) and not isinstance(b_.value, bool)) or \
+                (isinstance(b_, ast.UnaryOp) and isinstance(b_.op, ast.USub) and isinstance(b_.operand, ast.Constant) and isinstance(b_.operand.value, int))
+
+        def _cv(b_):
+            return None if b_ is None else (b_.value if isinstance(b_, ast.Constant) else -b_.operand.value)
+        sliced = {id(n.value): slice(_cv(n.slice.lower), _cv(n.slice.upper), _cv(n.slice.step)) for n in nodes
+                  if isinstance(n, ast.Subscript) and isinstance(n.value, ast.Name) and n.value.id == L and isinstance(n.ctx, ast.Load) and
+                  isinstance(n.slice, ast.Slice) and _cs(n.slice.lower) and _cs(n.slice.upper) and _cs(n.slice.step) and _cv(n.slice.step) != 0}
         sites = sorted(sites, key=lambda st: order[id(st)])
         # the binding that owns a read: the last one before it in program order (no binding sits in a loop)
         owner = {}
@@ -525,6 +534,8 @@ def _scalarise_list_local(fd, log=None):
             if id(ld) in starred:
                 owner[id(ld)] = st
             elif id(ld) in indexed and 0 <= indexed[id(ld)] < len(st.value.elts):
+                owner[id(ld)] = st
+            elif id(ld) in sliced:
                 owner[id(ld)] = st
             else:
                 ok = False
@@ -562,6 +573,9 @@ def _scalarise_list_local(fd, log=None):
             def visit_Subscript(self, n):
                 if isinstance(n.value, ast.Name) and id(n.value) in owner and id(n.value) in indexed:
                     return ast.copy_location(ast.Name(id=names[id(owner[id(n.value)])][indexed[id(n.value)]], ctx=ast.Load()), n)
+                if isinstance(n.value, ast.Name) and id(n.value) in owner and id(n.value) in sliced:
+                    return ast.copy_location(ast.List(elts=[ast.Name(id=nm, ctx=ast.Load()) for nm in names[id(owner[id(n.value)])][sliced[id(n.value)]]],
+                                                      ctx=ast.Load()), n)
                 return self.generic_visit(n)
         fd.body = [x for b in fd.body for x in (lambda r_: r_ if isinstance(r_, list) else [r_])(R().visit(b))]
         ast.fix_missing_locations(fd)
@@ -813,6 +827,40 @@ def _next_over_table(fd, log=None):
                 log.append('# first-match lookup in the literal table %s written as an if / elif chain in %s' % (tn, fd.name))
             return rewrite(stmts)
     rewrite(fd.body)
+
+
+def _return_accumulator(fd, log=None):
+    """`acc = ''` ... `acc += e` ... `return acc + tail` (acc a string accumulator: bound to a string literal, otherwise only `+=`-ed):
+    the last piece is appended like the others, `acc += tail; return acc`."""
+    if not fd.body or not isinstance(fd.body[-1], ast.Return):
+        return
+    ret = fd.body[-1]
+    v = ret.value
+    parts = []
+    while isinstance(v, ast.BinOp) and isinstance(v.op, ast.Add):
+        parts.append(v.right)
+        v = v.left
+    if not parts or not isinstance(v, ast.Name):
+        return
+    acc = v.id
+    stores = [n for n in _walk_no_defs(fd.body) if isinstance(n, ast.Name) and n.id == acc and isinstance(n.ctx, (ast.Store, ast.Del))]
+    inits = [n for n in _walk_no_defs(fd.body) if isinstance(n, ast.Assign) and len(n.targets) == 1 and isinstance(n.targets[0], ast.Name) and n.targets[0].id == acc]
+    augs = [n for n in _walk_no_defs(fd.body) if isinstance(n, ast.AugAssign) and isinstance(n.target, ast.Name) and n.target.id == acc and isinstance(n.op, ast.Add)]
+    if not inits or not augs or len(stores) != len(inits) + len(augs):
+        return
+    if not all(isinstance(n.value, ast.Constant) and isinstance(n.value.value, str) for n in inits):
+        return
+    if any(isinstance(x, ast.Name) and x.id == acc for p_ in parts for x in ast.walk(p_)):
+        return
+    tail = parts[-1]
+    for p_ in reversed(parts[:-1]):
+        tail = ast.BinOp(left=tail, op=ast.Add(), right=p_)
+    aug = ast.copy_location(ast.AugAssign(target=ast.Name(id=acc, ctx=ast.Store()), op=ast.Add(), value=tail), ret)
+    ret.value = ast.copy_location(ast.Name(id=acc, ctx=ast.Load()), ret.value)
+    fd.body.insert(len(fd.body) - 1, aug)
+    ast.fix_missing_locations(aug)
+    if log is not None:
+        log.append('# the last piece of the accumulator %s of %s is appended before the return' % (acc, fd.name))
 
 
 def _param_copy(fd, log=None):
@@ -1825,12 +1873,28 @@ class Inliner:
             def visit_ListComp(self, n):
                 self.generic_visit(n)
                 it_ = n.generators[0].iter if len(n.generators) == 1 else None
-                if isinstance(it_, ast.Call) and isinstance(it_.func, ast.Name) and it_.func.id == 'range' and len(it_.args) == 1 and not it_.keywords and \
-                        isinstance(it_.args[0], ast.Constant) and isinstance(it_.args[0].value, int) and not isinstance(it_.args[0].value, bool) and \
-                        0 <= it_.args[0].value <= 8:
-                    n.generators[0].iter = ast.copy_location(ast.Tuple(elts=[ast.Constant(value=k_) for k_ in range(it_.args[0].value)], ctx=ast.Load()), it_)
+                if isinstance(it_, ast.Call) and isinstance(it_.func, ast.Name) and it_.func.id == 'range' and 1 <= len(it_.args) <= 3 and not it_.keywords and \
+                        all(isinstance(a_, ast.Constant) and isinstance(a_.value, int) and not isinstance(a_.value, bool) for a_ in it_.args) and \
+                        not (len(it_.args) == 3 and it_.args[2].value == 0) and len(range(*[a_.value for a_ in it_.args])) <= 8:
+                    n.generators[0].iter = ast.copy_location(ast.Tuple(elts=[ast.Constant(value=k_) for k_ in range(*[a_.value for a_ in it_.args])], ctx=ast.Load()), it_)
                     ast.fix_missing_locations(n.generators[0].iter)
                     n.elt = self.visit(n.elt) if False else n.elt
+                it_ = n.generators[0].iter if len(n.generators) == 1 else None
+                if isinstance(it_, ast.Call) and isinstance(it_.func, ast.Name) and it_.func.id == 'zip' and len(it_.args) >= 2 and not it_.keywords and \
+                        all(isinstance(a_, (ast.List, ast.Tuple)) and not any(isinstance(e_, ast.Starred) for e_ in a_.elts) for a_ in it_.args) and \
+                        len({len(a_.elts) for a_ in it_.args}) == 1 and len(it_.args[0].elts) <= 8 and \
+                        all(isinstance(e_, (ast.Name, ast.Constant)) for a_ in it_.args for e_ in a_.elts):
+                    # zip of literal lists of names: the literal rows
+                    n.generators[0].iter = ast.copy_location(ast.Tuple(elts=[ast.Tuple(elts=[astcopy(a_.elts[k_]) for a_ in it_.args], ctx=ast.Load())
+                                                                             for k_ in range(len(it_.args[0].elts))], ctx=ast.Load()), it_)
+                    ast.fix_missing_locations(n.generators[0].iter)
+                g0_ = n.generators[0] if len(n.generators) == 1 else None
+                if g0_ is not None and not g0_.ifs and isinstance(g0_.target, ast.Tuple) and all(isinstance(t_, ast.Name) for t_ in g0_.target.elts) and \
+                        isinstance(g0_.iter, (ast.Tuple, ast.List)) and len(g0_.iter.elts) <= 8 and \
+                        all(isinstance(r_, (ast.Tuple, ast.List)) and len(r_.elts) == len(g0_.target.elts) and
+                            all(isinstance(e_, (ast.Name, ast.Constant)) for e_ in r_.elts) for r_ in g0_.iter.elts):
+                    return ast.copy_location(ast.List(elts=[_Subst({t_.id: e_ for t_, e_ in zip(g0_.target.elts, r_.elts)}).visit(astcopy(n.elt))
+                                                            for r_ in g0_.iter.elts], ctx=ast.Load()), n)
                 if len(n.generators) == 1 and not n.generators[0].ifs and isinstance(n.generators[0].target, ast.Name) and \
                         isinstance(n.generators[0].iter, (ast.Tuple, ast.List)) and len(n.generators[0].iter.elts) <= 8 and \
                         not any(isinstance(e_, ast.Starred) for e_ in n.generators[0].iter.elts):
@@ -2019,6 +2083,7 @@ class Inliner:
                 _extend_as_loop(fd)
                 _get_or_create(fd)
                 _next_over_table(fd, self.log)
+                _return_accumulator(fd, self.log)
                 _genexp_loop(fd, self.log)
                 _sort_then_use(fd, self.log)
                 _filter_then_loop(fd)
@@ -2222,6 +2287,77 @@ def _groups_desugar(fd):
                 for x_ in stmts[i:i + len(names)]:
                     ast.fix_missing_locations(x_)
                 continue
+            if isinstance(st, ast.Assign) and len(st.targets) == 1 and isinstance(st.targets[0], ast.Tuple) and isinstance(st.value, ast.Call) and \
+                    isinstance(st.value.func, ast.Attribute) and st.value.func.attr == 'groups' and not st.value.args and isinstance(st.value.func.value, ast.Name) and \
+                    sum(1 for x in st.targets[0].elts if isinstance(x, ast.Starred)) == 1 and \
+                    all(isinstance(x, ast.Name) or (isinstance(x, ast.Starred) and isinstance(x.value, ast.Name)) for x in st.targets[0].elts):
+                # `a, *rest = m.groups()` with the pattern of m a constant in sight: the number of groups is known
+                mv = st.value.func.value.id
+                ngroups = None
+                for prev in reversed(stmts[:i]):
+                    if isinstance(prev, ast.Assign) and len(prev.targets) == 1 and isinstance(prev.targets[0], ast.Name) and prev.targets[0].id == mv:
+                        c_ = prev.value
+                        if isinstance(c_, ast.Call) and isinstance(c_.func, ast.Attribute) and c_.func.attr in ('search', 'match', 'fullmatch') and \
+                                isinstance(c_.func.value, ast.Name) and c_.func.value.id == 're' and c_.args and isinstance(c_.args[0], ast.Constant) and \
+                                isinstance(c_.args[0].value, str):
+                            try:
+                                import re as _re
+                                ngroups = _re.compile(c_.args[0].value).groups
+                            except Exception:
+                                ngroups = None
+                        break
+                    if any(isinstance(x, ast.Name) and x.id == mv and isinstance(x.ctx, ast.Store) for x in ast.walk(prev)):
+                        break
+                # the match may be bound in the enclosing block: `m = re.search(..); if m: a, *rest = m.groups()`
+                if ngroups is None and _stores(fd.body).get(mv, 0) >= 1:
+                    pats = set()
+                    for x in _walk_no_defs(fd.body):
+                        if isinstance(x, ast.Assign) and len(x.targets) == 1 and isinstance(x.targets[0], ast.Name) and x.targets[0].id == mv:
+                            c_ = x.value
+                            if isinstance(c_, ast.Call) and isinstance(c_.func, ast.Attribute) and c_.func.attr in ('search', 'match', 'fullmatch') and \
+                                    isinstance(c_.func.value, ast.Name) and c_.func.value.id == 're' and c_.args and isinstance(c_.args[0], ast.Constant) and \
+                                    isinstance(c_.args[0].value, str):
+                                try:
+                                    import re as _re
+                                    pats.add(_re.compile(c_.args[0].value).groups)
+                                except Exception:
+                                    pats.add(None)
+                            else:
+                                pats.add(None)
+                    # several patterns bound to the same name: decided only by position (the nearest binding before this statement in program order)
+                    if len(pats) == 1 and None not in pats:
+                        ngroups = pats.pop()
+                    elif None not in pats and pats:
+                        nodes_ = list(_walk_no_defs(fd.body))
+                        pos_ = {id(x): k for k, x in enumerate(nodes_)}
+                        best = None
+                        for x in nodes_:
+                            if isinstance(x, ast.Assign) and len(x.targets) == 1 and isinstance(x.targets[0], ast.Name) and x.targets[0].id == mv and \
+                                    pos_[id(x)] < pos_.get(id(st), -1):
+                                best = x
+                        if best is not None and not any(isinstance(l_, (ast.For, ast.While)) for l_ in nodes_ if any(y is st for y in ast.walk(l_))):
+                            import re as _re
+                            ngroups = _re.compile(best.value.args[0].value).groups
+                elts = st.targets[0].elts
+                k_star = next(k for k, x in enumerate(elts) if isinstance(x, ast.Starred))
+                if ngroups is not None and ngroups >= len(elts) - 1 and ngroups <= 12:
+                    def grp(k):
+                        return ast.Call(func=ast.Attribute(value=ast.Name(id=mv, ctx=ast.Load()), attr='group', ctx=ast.Load()), args=[ast.Constant(value=k)], keywords=[])
+                    new_st = []
+                    n_after = len(elts) - 1 - k_star
+                    for k, x in enumerate(elts):
+                        if k < k_star:
+                            new_st.append(ast.Assign(targets=[ast.Name(id=x.id, ctx=ast.Store())], value=grp(k + 1), type_comment=None))
+                        elif k == k_star:
+                            new_st.append(ast.Assign(targets=[ast.Name(id=x.value.id, ctx=ast.Store())],
+                                                     value=ast.List(elts=[grp(g) for g in range(k_star + 1, ngroups - n_after + 1)], ctx=ast.Load()), type_comment=None))
+                        else:
+                            new_st.append(ast.Assign(targets=[ast.Name(id=x.id, ctx=ast.Store())], value=grp(ngroups - (len(elts) - 1 - k)), type_comment=None))
+                    for x_ in new_st:
+                        ast.copy_location(x_, st)
+                        ast.fix_missing_locations(x_)
+                    stmts[i:i + 1] = new_st
+                    continue
             if isinstance(st, ast.Assign) and len(st.targets) == 1 and isinstance(st.targets[0], ast.Name) and _group_expr(st.value) is not None:
                 # x = m.group(k) (or `m.group(k) or ' '`, `not m.group(k)` ...): a plain name for an expression over the groups of one match
                 mv = _group_expr(st.value)
